@@ -44,20 +44,37 @@ func toTime(x pref.Message) time.Time {
 // DurationValueWithin considers two durationpb.Duration to be equal if their durations are within d of each other.
 func DurationValueWithin(d time.Duration) Value {
 	return func(fd pref.FieldDescriptor, x, y pref.Value) (equal, ok bool) {
-		xd, yd, equal, ok, returnEarly := cmpDuration(fd, x, y)
+		_, _, equal, ok, returnEarly := cmpDuration(fd, x, y)
 		if returnEarly {
 			return equal, ok
 		}
-		return d >= 0 && absDiff(xd, yd) <= uint64(d), true
+		return d >= 0 && durationsWithin(toDurationpb(x.Message()), toDurationpb(y.Message()), uint64(d)), true
 	}
 }
 
-// absDiff returns |x-y|. The difference of two durations always fits in a uint64 but can overflow a time.Duration.
-func absDiff(x, y time.Duration) uint64 {
-	if x < y {
-		x, y = y, x
+// maxDurationSeconds is more seconds than a time.Duration can span, with room for the two nanos fields.
+const maxDurationSeconds = math.MaxInt64/uint64(time.Second) + 5
+
+// durationsWithin reports whether |x-y| <= d nanoseconds. It works on the seconds and nanos fields because AsDuration
+// saturates beyond about 292 years, which made all longer Durations compare equal.
+func durationsWithin(x, y *durationpb.Duration, d uint64) bool {
+	xs, xn, ys, yn := x.GetSeconds(), int64(x.GetNanos()), y.GetSeconds(), int64(y.GetNanos())
+	if xs < ys {
+		xs, xn, ys, yn = ys, yn, xs, xn
 	}
-	return uint64(x) - uint64(y)
+	ds := uint64(xs) - uint64(ys) // xs >= ys: the difference always fits in a uint64
+	if ds > maxDurationSeconds {
+		return false // further apart than any time.Duration, whatever the nanos
+	}
+	ns, dn := ds*uint64(time.Second), xn-yn
+	switch {
+	case dn >= 0:
+		return ns+uint64(dn) <= d
+	case ns >= uint64(-dn):
+		return ns-uint64(-dn) <= d
+	default:
+		return uint64(-dn)-ns <= d
+	}
 }
 
 // DurationValueWithinP considers two durationpb.Duration to be equal if their values are within p percent of each other.
@@ -97,5 +114,9 @@ func cmpDuration(fd pref.FieldDescriptor, x, y pref.Value) (xd, yd time.Duration
 }
 
 func toDuration(x pref.Message) time.Duration {
-	return x.Interface().(*durationpb.Duration).AsDuration()
+	return toDurationpb(x).AsDuration()
+}
+
+func toDurationpb(x pref.Message) *durationpb.Duration {
+	return x.Interface().(*durationpb.Duration)
 }
